@@ -170,9 +170,11 @@ type ZooA struct {
 	tag int
 }
 
-func (z *ZooA) Join(ctx *DC, m *MsgA, cb CB)                       { act("ZooA.Join", z.tag, ctx, m, cb) }
-func (z *ZooA) Say(ctx *DC, m *MsgA)                               { act("ZooA.Say", z.tag, ctx, m, nil) }
-func (z *ZooA) Plain(ctx *DC, m *MsgB, cb func(error, interface{})) { act("ZooA.Plain", z.tag, ctx, m, cb) }
+func (z *ZooA) Join(ctx *DC, m *MsgA, cb CB) { act("ZooA.Join", z.tag, ctx, m, cb) }
+func (z *ZooA) Say(ctx *DC, m *MsgA)         { act("ZooA.Say", z.tag, ctx, m, nil) }
+func (z *ZooA) Plain(ctx *DC, m *MsgB, cb func(error, interface{})) {
+	act("ZooA.Plain", z.tag, ctx, m, cb)
+}
 func (z *ZooA) WithRet(ctx *DC, m *MsgA, cb CB) error {
 	act("ZooA.WithRet", z.tag, ctx, m, cb)
 	return errors.New("ignored")
@@ -188,6 +190,7 @@ func (z *ZooA) CtxIface(ctx api.IContext, m *MsgA, cb CB) { act("ZooA.CtxIface",
 func (z *ZooA) CtxNoImpl(ctx *NoCtx, m *MsgA, cb CB)      { act("ZooA.CtxNoImpl", z.tag, ctx, m, cb) }
 func (z *ZooA) CtxPtrPtr(ctx **ZCtx, m *MsgA)             { act("ZooA.CtxPtrPtr", z.tag, ctx, m, nil) }
 func (z *ZooA) MsgByValue(ctx *DC, m MsgA, cb CB)         { act("ZooA.MsgByValue", z.tag, ctx, m, cb) }
+func (z *ZooA) NoteByValue(ctx *DC, m MsgA)               { act("ZooA.NoteByValue", z.tag, ctx, m, nil) }
 func (z *ZooA) MsgIface(ctx *DC, m interface{}, cb CB)    { act("ZooA.MsgIface", z.tag, ctx, m, cb) }
 func (z *ZooA) MsgMap(ctx *DC, m map[string]int)          { act("ZooA.MsgMap", z.tag, ctx, m, nil) }
 func (z *ZooA) MsgSlice(ctx *DC, m []byte, cb CB)         { act("ZooA.MsgSlice", z.tag, ctx, m, cb) }
@@ -210,9 +213,9 @@ func (z *ZooA) VarCbs(ctx *DC, m *MsgA, cbs ...CB)      { act("ZooA.VarCbs", z.t
 func (z *ZooA) VarExtra(ctx *DC, m *MsgA, cb CB, more ...int) {
 	act("ZooA.VarExtra", z.tag, ctx, m, cb)
 }
-func (z *ZooA) hidden(ctx *DC, m *MsgA, cb CB)              { act("ZooA.hidden", z.tag, ctx, m, cb) }
-func (z *ZooA) Proto(ctx *DC, m *msgs.TestHello, cb CB)     { act("ZooA.Proto", z.tag, ctx, m, cb) }
-func (z *ZooA) ProtoNote(ctx *DC, m *msgs.TestHello)        { act("ZooA.ProtoNote", z.tag, ctx, m, nil) }
+func (z *ZooA) hidden(ctx *DC, m *MsgA, cb CB)          { act("ZooA.hidden", z.tag, ctx, m, cb) }
+func (z *ZooA) Proto(ctx *DC, m *msgs.TestHello, cb CB) { act("ZooA.Proto", z.tag, ctx, m, cb) }
+func (z *ZooA) ProtoNote(ctx *DC, m *msgs.TestHello)    { act("ZooA.ProtoNote", z.tag, ctx, m, nil) }
 func (z *ZooA) Remote(ctx *service.RemoteContext, m *msgs.TestHello, cb CB) {
 	act("ZooA.Remote", z.tag, ctx, m, cb)
 }
@@ -221,9 +224,9 @@ func (z *ZooA) Remote(ctx *service.RemoteContext, m *msgs.TestHello, cb CB) {
 
 type ZooV struct{ Tag int }
 
-func (ZooV) Desc() string                     { return "ZooV" }
-func (z ZooV) ValJoin(ctx *DC, m *MsgA, cb CB) { act("ZooV.ValJoin", z.Tag, ctx, m, cb) }
-func (z ZooV) ValSay(ctx *DC, m *MsgA)         { act("ZooV.ValSay", z.Tag, ctx, m, nil) }
+func (ZooV) Desc() string                       { return "ZooV" }
+func (z ZooV) ValJoin(ctx *DC, m *MsgA, cb CB)  { act("ZooV.ValJoin", z.Tag, ctx, m, cb) }
+func (z ZooV) ValSay(ctx *DC, m *MsgA)          { act("ZooV.ValSay", z.Tag, ctx, m, nil) }
 func (z *ZooV) PtrJoin(ctx *DC, m *MsgA, cb CB) { act("ZooV.PtrJoin", z.Tag, ctx, m, cb) }
 func (z *ZooV) PtrSay(ctx *DC, m *MsgB)         { act("ZooV.PtrSay", z.Tag, ctx, m, nil) }
 func (z *ZooV) ptrHidden(ctx *DC, m *MsgB)      { act("ZooV.ptrHidden", z.Tag, ctx, m, nil) }
@@ -272,7 +275,7 @@ type ZooEmpty struct {
 	tag int
 }
 
-func (z *ZooEmpty) Zero()                        { act("ZooEmpty.Zero", z.tag, nil, nil, nil) }
+func (z *ZooEmpty) Zero()                         { act("ZooEmpty.Zero", z.tag, nil, nil, nil) }
 func (z *ZooEmpty) Bad(ctx NoCtx, m *MsgA, cb CB) { act("ZooEmpty.Bad", z.tag, ctx, m, cb) }
 
 type zooPriv struct {
